@@ -1776,7 +1776,19 @@ class ExplodeFrame(ExplodeSeries):
 
     def _simplify_up(self, parent, dependents):
         if isinstance(parent, Projection):
-            return plain_column_projection(self, parent, dependents, [self.column])
+            columns = determine_column_projection(
+                self, parent, dependents, [self.column]
+            )
+            # always keep a frame, a single column would turn this into a
+            # Series.explode call with our column as its first argument
+            columns = _convert_to_list(columns)
+            columns = [col for col in self.frame.columns if col in columns]
+            if columns == self.frame.columns:
+                return
+            return type(parent)(
+                type(self)(self.frame[columns], *self.operands[1:]),
+                parent.operand("columns"),
+            )
 
 
 class Drop(Elemwise):
